@@ -511,7 +511,16 @@ func opWifMutate(_ *HState, a Event) Event {
 			return
 		}
 		s1 := w.String()
-		if gName(a, "via") == "decode" {
+		if gName(a, "via") == "decode-after-wipe" {
+			// an earlier decoded value of the same string is wiped in place by its owner (as a wallet does with secrets):
+			// every decoded value is its own
+			if w0, err0 := bchutil.DecodeWIF(s1); err0 == nil {
+				w0.PrivKey.D.SetInt64(0)
+				w0.PrivKey.X.SetInt64(0)
+				w0.PrivKey.Y.SetInt64(0)
+			}
+		}
+		if via := gName(a, "via"); via == "decode" || via == "decode-after-wipe" {
 			if w, err = bchutil.DecodeWIF(s1); err != nil {
 				e["panic"] = "DecodeWIF of an encoded string: " + err.Error()
 				return
